@@ -1,5 +1,10 @@
 import SamplyModel.Lemmas.ChunkCache
 import SamplyModel.Lemmas.ChunkCacheIface
+import SamplyModel.Lemmas.ChunkCacheConc
+import SamplyModel.Lemmas.ChunkCacheConcTerm
+import SamplyModel.Lemmas.ChunkCacheConcSeq
+import SamplyModel.Lemmas.ChunkCacheShared
+import SamplyModel.Lemmas.ChunkCacheCover
 /-!
 # C13 — chunk-cached file access returns exactly the underlying file's bytes
 
@@ -15,10 +20,13 @@ Hypotheses used throughout (all satisfiable, see the examples at the end):
 * `Faithful F c.src` — when the byte source succeeds on an in-bounds request it returns the file's bytes;
 * `SourceOk F c.src` (only where stated) — the byte source succeeds on every in-bounds request.
 
-There is no bound on the file, the chunk size, the history length or the offsets/sizes. Every history is a
-sequence of mutex-protected critical sections executed one after the other; under the assumption that
-`std::sync::Mutex` makes the sections atomic, this covers every interleaving of concurrent readers at lock
-granularity (notes/C13.md says what that does not cover).
+There is no bound on the file, the chunk size, the history length or the offsets/sizes.
+Three further parts: concurrent readers under every schedule of the calls' atomic sections at lock granularity
+(`Model/ChunkCacheConc.lean`, theorems `C13_interleaving*`, assuming that `std::sync::Mutex` makes a critical
+section atomic; notes/C13.md says what that does not cover), the shared.rs layer through which parsers reach the
+cache (`Model/ChunkCacheShared.lean`, theorems `C13_shared_*`), and a second invariant for failing sources
+(`C13_total_after_success`). The excluded point of `Faithful` — a source that reports success with a buffer of
+the wrong length — is `C13_wrong_length_panics` (the harness runs the real code there: `srcmode` lines).
 Only property theorems (names `C13_*`) and non-vacuity examples live in this file.
 -/
 open CC
@@ -246,6 +254,308 @@ theorem C13_driver_source (g : C13.Gen) :
     (g.badHi = 0 → SourceOk (C13.fileSlice g 0 g.len) (C13.src g)) :=
   ⟨C13.fileSlice_length g 0 g.len, C13.src_faithful g, C13.src_ok g⟩
 
+/-- **"Succeeds whenever the source does", with a failing source.** If the source is monotone (having
+delivered a range it delivers every sub-range: any deterministic source that fails exactly on the requests
+touching some set of bad bytes) then, once a range read has succeeded, every later range read inside that range
+succeeds with the file's bytes — whatever calls were made before, in between and whatever the source refuses
+elsewhere: the cache never turns a failure of the source on *other* bytes into a failure of bytes it has
+delivered before. The hypothesis `chunk ∣ 2^64 ∨ |F| + chunk ≤ 2^64` holds for the real chunk size
+(`C13_real_chunk_divides`), so for the code as it is this covers every file below `2^64` bytes; for a chunk
+size that does not divide `2^64` and a file within one chunk of `2^64` the saturating `round_up_to_multiple`
+plans a read up to EOF, past the boundary where the earlier buffer ended. -/
+theorem C13_total_after_success (c : Cfg) (F : List UInt8) (hc : 0 < c.chunk)
+    (hsz : F.length < U64) (hch : c.chunk ∣ U64 ∨ F.length + c.chunk ≤ U64) (hf : Faithful F c.src)
+    (hmono : SrcMono c.src)
+    (ops₁ ops₂ : List Op) (o n : Nat) (bs : List UInt8)
+    (hprev : (readBytesAt c (run c F.length ops₁) o n).2 = .ok bs)
+    (o' n' : Nat) (h1 : o ≤ o') (h2 : o' + n' ≤ o + n) :
+    (readBytesAt c (run c F.length (ops₁ ++ .read o n :: ops₂)) o' n').2 = .ok (slice F o' n') := by
+  by_cases hn' : n' = 0
+  · subst hn'; simp [readBytesAt, slice_zero]
+  have hsz : F.length < U64 := by omega
+  obtain ⟨i1, j1, _⟩ := run_inv2 c F hc hsz hch hf hmono ops₁ _ (inv_init F) (inv2_init c F)
+  have hstep := step_cover c F hc hsz hch hmono _ i1 j1 (.read o n)
+  have i2 := (step_spec c F hc hsz hf _ i1 (.read o n)).1
+  obtain ⟨j2, _, hcov⟩ := hstep
+  have hrun : run c F.length (ops₁ ++ .read o n :: ops₂) =
+      ops₂.foldl (fun st op => (step c st op).1) (step c (run c F.length ops₁) (.read o n)).1 := by
+    simp [run, List.foldl_append]
+  have hcov2 : Covered (step c (run c F.length ops₁) (.read o n)).1 o (o + n) := by
+    have hcov' : okCover (.read o n) (readBytesAt c (run c F.length ops₁) o n).2
+        (readBytesAt c (run c F.length ops₁) o n).1 := hcov
+    rw [hprev] at hcov'
+    simp only [okCover] at hcov'
+    rcases hcov' with h0 | h
+    · omega
+    · exact h
+  obtain ⟨i3, j3, mono⟩ := run_inv2 c F hc hsz hch hf hmono ops₂ _ i2 j2
+  rw [hrun]
+  obtain ⟨idx, br, hbr, c1, c2⟩ := mono _ _ hcov2
+  exact readBytesAt_covered c F hc hsz hch hf hmono _ i3 j3 o' n' (by omega) ⟨idx, br, hbr, by omega, by omega⟩
+
+/-- The excluded point of `Faithful`, as the code behaves: if the byte source reports success on the buffer
+the cache has planned but delivers a different number of bytes (a file truncated or grown after its length was
+taken), `get_range_location` panics at `assert!(buffer.len() == read_len)` (cache.rs:67) with the cache state
+untouched — the `FileByteSource` contract says "otherwise the caller may panic". The mutex is poisoned, every
+later call on the object panics too. -/
+theorem C13_wrong_length_panics (c : Cfg) (st : St) (r rr : Range) (buf : List UInt8)
+    (hplan : determineRangeSourcing c.chunk st.mgr r = .ok (.needNew rr)) (hle : rr.lo ≤ rr.hi)
+    (hsrc : c.src rr.lo (rr.hi - rr.lo) = some buf) (hlen : buf.length ≠ rr.hi - rr.lo) :
+    getRangeLocation c st r = (st, .panic) := by
+  unfold getRangeLocation
+  rw [hplan]
+  have n1 : ¬ ¬ rr.lo ≤ rr.hi := by omega
+  simp only [n1, if_false, hsrc, hlen, ne_eq, not_false_eq_true, if_true]
+
+/-- outside `srcmode` sections the model driver runs the faithful source of `C13_driver_source` -/
+theorem C13_driver_source_mode_zero (g : C13.Gen) : C13.srcMode g 0 = C13.src g := C13.srcMode_zero g
+
+/-- the chunk size of the code (`CHUNK_SIZE = 32 * 1024`, cache.rs:11) divides `2^64` -/
+theorem C13_real_chunk_divides : realChunk ∣ U64 := by decide
+
+/-- the harness's byte source (fails exactly on the requests touching `[badLo, badHi)` or reaching past the
+end) is monotone, so `C13_total_after_success` applies to the model runs that are compared with the code -/
+theorem C13_driver_source_mono (g : C13.Gen) : SrcMono (C13.src g) := C13.src_mono g
+
+/-! ### Concurrent readers: every schedule of the calls' atomic sections
+
+`Model/ChunkCacheConc.lean` cuts each public call into its atomic sections at lock granularity
+(`read_bytes_at` = the `buffer_manager` critical section, then the lock-free `slice_from_location`;
+`read_bytes_at_until` = lock `string_cache` + lookup, [slice on a hit], the nested `buffer_manager` section,
+slice, `memchr` + insert + unlock; a thread that needs the `string_cache` mutex while another holds it is
+blocked). `CC.runSched c (Sys.init |F| progs) sched` runs N threads with programs `progs` (lists of calls)
+under an arbitrary schedule `sched` (any list of thread numbers: whichever thread is named runs its next
+section if it is enabled). No bound on the number of threads, the programs or the schedule. -/
+
+/-- **Results do not depend on concurrent readers.** Under every schedule of the atomic sections of any
+number of threads making arbitrary calls on one shared cache, every finished call of every thread returned
+exactly what `C13_step` allows for a call made alone: `CC.spec F src op` — a function of the file and the
+request only — or the source's own failure on the buffer the call had to read. The cache invariant holds in
+every reachable configuration, and every thread's calls (finished, in progress, to come) are its program in
+program order (no call is lost, repeated or reordered). -/
+theorem C13_interleaving (c : Cfg) (F : List UInt8) (hc : 0 < c.chunk) (hsz : F.length < U64)
+    (hf : Faithful F c.src) (progs : List (List Op)) (sched : List Nat) :
+    Inv F (runSched c (Sys.init F.length progs) sched).st ∧
+    (runSched c (Sys.init F.length progs) sched).threads.length = progs.length ∧
+    ∀ (k : Nat) (t : Thread), (runSched c (Sys.init F.length progs) sched).threads[k]? = some t →
+      progs[k]? = some t.calls ∧
+      ∀ op out, (op, out) ∈ t.done →
+        out = spec F c.src op ∨ (out = .err .source ∧ SrcFails c F op) := by
+  have h := runSched_ok c F hc hsz hf progs sched _ (sysOk_init c F progs)
+  refine ⟨h.inv, h.len, fun k t ht => ⟨h.calls k t ht, fun op out hm => ?_⟩⟩
+  exact (h.thr k t ht).done (op, out) hm
+
+/-- With a source that succeeds on in-bounds requests: under every schedule every finished call of every
+thread returned `CC.spec F src op`. Hence the outcome of a call is the same under any two schedules, with any
+other threads making any other calls, and the same as when the call is made alone on a fresh cache
+(`C13_history_independent`). -/
+theorem C13_interleaving_source_ok (c : Cfg) (F : List UInt8) (hc : 0 < c.chunk) (hsz : F.length < U64)
+    (hf : Faithful F c.src) (hok : SourceOk F c.src) (progs : List (List Op)) (sched : List Nat)
+    (k : Nat) (t : Thread) (ht : (runSched c (Sys.init F.length progs) sched).threads[k]? = some t)
+    (op : Op) (out : Out (List UInt8)) (hm : (op, out) ∈ t.done) :
+    out = spec F c.src op ∧ out = (step c (St.init F.length) op).2 := by
+  have key : out = spec F c.src op := by
+    rcases (C13_interleaving c F hc hsz hf progs sched).2.2 k t ht |>.2 op out hm with h | ⟨_, hfail⟩
+    · exact h
+    · exact absurd hfail (srcFails_not_ok hok _)
+  exact ⟨key, by rw [key]; exact ((C13_history_independent c F hc hsz hf hok [] [] op).1).symm⟩
+
+/-- No call of any thread panics under any schedule (so no mutex is ever poisoned), with any faithful source. -/
+theorem C13_interleaving_no_panic (c : Cfg) (F : List UInt8) (hc : 0 < c.chunk) (hsz : F.length < U64)
+    (hf : Faithful F c.src) (progs : List (List Op)) (sched : List Nat)
+    (k : Nat) (t : Thread) (ht : (runSched c (Sys.init F.length progs) sched).threads[k]? = some t)
+    (op : Op) (out : Out (List UInt8)) (hm : (op, out) ∈ t.done) : out ≠ .panic :=
+  good_not_panic ((C13_interleaving c F hc hsz hf progs sched).2.2 k t ht |>.2 op out hm)
+
+/-- Deadlock freedom at lock granularity: in every reachable configuration, unless every thread has finished
+its program, some thread is enabled (the owner of the `string_cache` mutex never waits for anything: the
+`buffer_manager` mutex is only ever taken inside it, never the other way round). -/
+theorem C13_interleaving_deadlock_free (c : Cfg) (F : List UInt8) (hc : 0 < c.chunk) (hsz : F.length < U64)
+    (hf : Faithful F c.src) (progs : List (List Op)) (sched : List Nat)
+    (j : Nat) (u : Thread) (hj : (runSched c (Sys.init F.length progs) sched).threads[j]? = some u)
+    (hu : u.finished = false) :
+    ∃ k, (runSched c (Sys.init F.length progs) sched).enabled c k = true :=
+  sysOk_progress c F progs _ (runSched_ok c F hc hsz hf progs sched _ (sysOk_init c F progs)) j u hj hu
+
+/-- Sequential histories are among the schedules: for every history `ops` there is a schedule of the
+one-thread system with program `ops` that ends in exactly the sequential state `CC.run c |F| ops`, the lock
+free, the thread finished, and its recorded outcomes those of `CC.step` along the history (`CC.seqDone`). So
+`C13_interleaving*` (all schedules) contain `C13_step` & co. (all histories) as the one-thread case, and the
+section model and the sequential model — the one compared with the real code — agree on whole histories. -/
+theorem C13_interleaving_contains_histories (c : Cfg) (F : List UInt8) (hc : 0 < c.chunk)
+    (hsz : F.length < U64) (hf : Faithful F c.src) (ops : List Op) :
+    ∃ sched, runSched c (Sys.init F.length [ops]) sched =
+      ⟨run c F.length ops, none, [⟨.idle, [], seqDone c (St.init F.length) ops []⟩]⟩ :=
+  seq_schedule c F hc hsz hf ops _ (inv_init F) []
+
+/-- Every execution is finite: a scheduled thread that is enabled runs one section and strictly decreases
+`Sys.measure` (4 per call still to make + the sections left in the call in progress), a scheduled thread that
+is not enabled (finished, or blocked on the `string_cache` mutex) changes nothing, and the measure starts at
+`4 · (total number of calls)`. With `C13_interleaving_deadlock_free`: under every schedule at most
+`4 · #calls` sections run, and as long as some call is outstanding some thread can run — so every maximal
+execution completes every call of every thread, with the outcomes of `C13_interleaving`. -/
+theorem C13_interleaving_terminates (c : Cfg) (s : Sys) (k : Nat) (fileLen : Nat) (progs : List (List Op)) :
+    (s.enabled c k = true → (sysStep c s k).measure < s.measure) ∧
+    (s.enabled c k = false → sysStep c s k = s) ∧
+    (Sys.init fileLen progs).measure = 4 * (progs.map List.length).sum :=
+  ⟨sysStep_measure c s k, sysStep_not_enabled c s k, measure_init fileLen progs⟩
+
+/-- The section model refines to the sequential model: the sections of one call run without another thread
+in between are exactly `CC.step` — the function that the correspondence run compares with the real code, call
+by call — on the state and on the outcome, and the lock is free again afterwards. -/
+theorem C13_sections_compose (c : Cfg) (st : St) (op : Op) (hnp : (step c st op).2 ≠ .panic) :
+    runSched c (Sys.solo st ⟨.idle, [op], []⟩) [0, 0, 0, 0] =
+      Sys.solo (step c st op).1 ⟨.idle, [], [(op, (step c st op).2)]⟩ :=
+  sections_compose c st op hnp
+
+/-! ### The shared.rs layer parsers use to reach the cache
+
+`Model/ChunkCacheShared.lean`: `read_entire_data`, `impl ReadRef for &FileContentsWrapper` (errors discarded)
+and `RangeReadRef` (`full_range` / `range` / nested `make_subrange`, offsets shifted with `checked_add`).
+`CC.xrun c |F| ops` is the cache state after an arbitrary history of calls of *both* layers
+(`XOp.base op` = the three `FileContents` methods, `XOp.view v` = the shared.rs entry points).
+`op.startOk`: the starts of the nested `make_subrange` calls add up to less than `2^64` (the addition at
+shared.rs:1057 is unchecked — see `C13_shared_subrange_overflow_panics`). -/
+
+/-- The invariant holds after every history of calls of both layers (also after views whose `make_subrange`
+chain overflowed: those calls panic before they reach the cache). -/
+theorem C13_shared_invariant (c : Cfg) (F : List UInt8) (hc : 0 < c.chunk) (hsz : F.length < U64)
+    (hf : Faithful F c.src) (ops : List XOp) : Inv F (xrun c F.length ops) :=
+  xrun_inv c F hc hsz hf ops
+
+/-- **Main statement for both layers.** After any history of calls of both layers, a call returns exactly
+what the file alone dictates (`CC.xspec`: for a view, the cache-level answer at the offset shifted by the sum
+of the view's starts, errors reduced to `Err(())`; shifted offsets that overflow `u64` fail cleanly; a view's
+`range_size` plays no role) — or the source's failure on the buffer it had to read (reported as `err source`
+by `read_entire_data` and the `FileContents` methods, as `Err(())` by the `ReadRef` impls), state unchanged. -/
+theorem C13_shared_step (c : Cfg) (F : List UInt8) (hc : 0 < c.chunk) (hsz : F.length < U64)
+    (hf : Faithful F c.src) (ops : List XOp) (op : XOp) (hstart : op.startOk) :
+    (xstep c (xrun c F.length ops) op).2 = xspec F c.src op ∨
+    ((xstep c (xrun c F.length ops) op).2 = .err op.srcErr ∧
+      (xstep c (xrun c F.length ops) op).1 = xrun c F.length ops ∧ SrcFails c F (op.under F.length)) :=
+  (xstep_spec c F hc hsz hf _ (xrun_inv c F hc hsz hf ops) op hstart).2
+
+/-- With a source that succeeds on in-bounds requests, every call of either layer after any mixed history
+returns `CC.xspec F src op`: independent of the history (and of the chunk size, which does not occur in
+`xspec`). -/
+theorem C13_shared_history_independent (c : Cfg) (F : List UInt8) (hc : 0 < c.chunk) (hsz : F.length < U64)
+    (hf : Faithful F c.src) (hok : SourceOk F c.src) (ops₁ ops₂ : List XOp) (op : XOp) (hstart : op.startOk) :
+    (xstep c (xrun c F.length ops₁) op).2 = xspec F c.src op ∧
+    (xstep c (xrun c F.length ops₁) op).2 = (xstep c (xrun c F.length ops₂) op).2 := by
+  have key : ∀ ops, (xstep c (xrun c F.length ops) op).2 = xspec F c.src op := by
+    intro ops
+    rcases C13_shared_step c F hc hsz hf ops op hstart with hs | ⟨_, _, hfail⟩
+    · exact hs
+    · exact absurd hfail (srcFails_not_ok hok _)
+  exact ⟨key ops₁, by rw [key ops₁, key ops₂]⟩
+
+/-- `read_entire_data` returns the whole file, after any history (source succeeding). -/
+theorem C13_shared_entire (c : Cfg) (F : List UInt8) (hc : 0 < c.chunk) (hsz : F.length < U64)
+    (hf : Faithful F c.src) (hok : SourceOk F c.src) (ops : List XOp) :
+    (xstep c (xrun c F.length ops) (.view .entire)).2 = .ok F :=
+  (C13_shared_history_independent c F hc hsz hf hok ops ops (.view .entire) trivial).1
+
+/-- A read through a (nested) view at offset `o` is the read of the file at `start₀ + start₁ + … + o`: with a
+succeeding source, in bounds it returns exactly those bytes of the file; out of bounds, or when the shifted
+offset overflows `u64`, it fails cleanly. -/
+theorem C13_shared_view_read (c : Cfg) (F : List UInt8) (hc : 0 < c.chunk) (hsz : F.length < U64)
+    (hf : Faithful F c.src) (hok : SourceOk F c.src) (ops : List XOp) (base : Option (Nat × Nat))
+    (subs : List (Nat × Nat)) (o n : Nat) (hstart : viewStart base subs < U64) :
+    (viewStart base subs + o + n ≤ F.length →
+      (xstep c (xrun c F.length ops) (.view (.vread base subs o n))).2 = .ok (slice F (viewStart base subs + o) n)) ∧
+    (n ≠ 0 → F.length < viewStart base subs + o + n →
+      (xstep c (xrun c F.length ops) (.view (.vread base subs o n))).2 = .err .discarded) := by
+  have h := (C13_shared_history_independent c F hc hsz hf hok ops ops (.view (.vread base subs o n)) hstart).1
+  rw [h]
+  simp only [xspec, vspec]
+  generalize viewStart base subs = s at *
+  constructor
+  · intro hin
+    have n1 : ¬ U64 ≤ s + o := by omega
+    simp only [n1, if_false, specRead]
+    by_cases h0 : n = 0
+    · subst h0; simp [slice_zero, discardErr]
+    · have n2 : ¬ U64 ≤ s + o + n := by omega
+      have n3 : ¬ F.length < s + o + n := by omega
+      simp only [h0, n2, n3, if_false, discardErr]
+  · intro h0 hout
+    by_cases h1 : U64 ≤ s + o
+    · simp only [h1, if_true]
+    · simp only [h1, if_false, specRead, h0]
+      by_cases h2 : U64 ≤ s + o + n
+      · simp only [h2, if_true, discardErr]
+      · simp only [h2, hout, if_true, if_false, discardErr]
+
+/-- No call of either layer panics after any history, provided the `make_subrange` chains do not overflow. -/
+theorem C13_shared_no_panic (c : Cfg) (F : List UInt8) (hc : 0 < c.chunk) (hsz : F.length < U64)
+    (hf : Faithful F c.src) (ops : List XOp) (op : XOp) (hstart : op.startOk) :
+    (xstep c (xrun c F.length ops) op).2 ≠ .panic := by
+  rcases C13_shared_step c F hc hsz hf ops op hstart with hs | ⟨hs, _⟩
+  · rw [hs]
+    cases op with
+    | base op =>
+      have := C13_no_panic c F hc hsz hf [] op
+      intro h
+      cases op with
+      | read o n => simp only [xspec, spec, specRead] at h; repeat' split at h
+                    all_goals simp at h
+      | until_ r d => simp only [xspec, spec, specUntil] at h; repeat' split at h
+                      all_goals simp at h
+      | into o n => simp only [xspec, spec] at h; split at h <;> simp at h
+    | view v =>
+      intro h
+      cases v with
+      | entire => simp [xspec, vspec] at h
+      | wread o n => simp only [xspec, vspec, specRead] at h; repeat' split at h
+                     all_goals simp [discardErr] at h
+      | wuntil r d => simp only [xspec, vspec, specUntil] at h; repeat' split at h
+                      all_goals simp [discardErr] at h
+      | vread base subs o n => simp only [xspec, vspec, specRead] at h; repeat' split at h
+                               all_goals simp [discardErr] at h
+      | vuntil base subs r d => simp only [xspec, vspec, specUntil] at h; repeat' split at h
+                                all_goals simp [discardErr] at h
+  · rw [hs]; simp
+
+/-- The excluded point of `startOk`, as the code behaves with overflow checks on: a view read through a
+non-empty `make_subrange` chain whose starts add up to `2^64` or more panics (shared.rs:1057,
+`self.range_start + start` unchecked; a release build wraps instead and reads at the wrapped offset), leaving
+the cache untouched. The harness has this family (`gen_subrange_overflow`), the judge demands a clean error
+there. -/
+theorem C13_shared_subrange_overflow_panics (c : Cfg) (st : St) (base : Option (Nat × Nat))
+    (subs : List (Nat × Nat)) (o n : Nat) (hne : subs ≠ []) (hov : U64 ≤ viewStart base subs) :
+    vstep c st (.vread base subs o n) = (st, .panic) := by
+  simp only [vstep]
+  rw [build_overflow _ subs hne (by rw [viewBase_start]; exact hov)]
+
+/-- **A call of the shared.rs layer is its cache-level call plus local wrapper code.** Unless the wrapper
+refuses it before it reaches the cache (`v.refused`: shifted offset beyond `u64`, inverted range), a view call
+is exactly `CC.step` on the cache-level call `v.under` — same new state — with the outcome passed through
+`v.post` (`Err(())` for the `ReadRef` impls, unchanged for `read_entire_data`). The wrapper code touches no
+shared state: at lock granularity a view call has the atomic sections of `v.under`. -/
+theorem C13_shared_reduces (c : Cfg) (st : St) (v : VOp) (hstart : v.startOk) :
+    vstep c st v =
+      if v.refused then (st, .err .discarded)
+      else ((step c st (v.under st.fileLen)).1, v.post (step c st (v.under st.fileLen)).2) :=
+  vstep_reduces c st v hstart
+
+/-- Concurrent readers going through the shared.rs layer: by `C13_shared_reduces` a thread making the view
+call `v` executes the sections of `v.under` and hands `v.post out` to its caller; under every schedule, with any
+other threads making any calls, that is `CC.vspec F v` — what the file alone dictates for the view call. -/
+theorem C13_interleaving_views (c : Cfg) (F : List UInt8) (hc : 0 < c.chunk) (hsz : F.length < U64)
+    (hf : Faithful F c.src) (hok : SourceOk F c.src) (progs : List (List Op)) (sched : List Nat)
+    (k : Nat) (t : Thread) (ht : (runSched c (Sys.init F.length progs) sched).threads[k]? = some t)
+    (v : VOp) (out : Out (List UInt8)) (hm : (v.under F.length, out) ∈ t.done) (hnr : v.refused = false) :
+    v.post out = vspec F v := by
+  have h := (C13_interleaving_source_ok c F hc hsz hf hok progs sched k t ht _ out hm).1
+  rw [vspec_reduces F c.src hsz v, hnr, h]
+  simp
+
+/-- Histories of cache-level calls only are a special case of mixed histories (so the theorems of the first
+part are instances of `C13_shared_step`). -/
+theorem C13_shared_extends_run (c : Cfg) (fileLen : Nat) (ops : List Op) :
+    xrun c fileLen (ops.map .base) = run c fileLen ops :=
+  xrun_base c fileLen ops
+
 /-! ### The repaired defects: why the pre-fix code does not satisfy the theorems above
 
 `readBytesAtUntilLegacy` is the code before commits 22b09fd5 / 586a1eab. Concrete 20-byte file, chunk size 8,
@@ -313,3 +623,52 @@ example :
     (readBytesAtUntil c (St.init 20) ⟨10, 14⟩ 0).2 = .ok [11, 12] ∧
     (readBytesAtUntil c (readBytesAtUntil c (St.init 20) ⟨10, 14⟩ 0).1 ⟨10, 20⟩ 0).2 = .ok [11, 12] := by
   decide
+
+/-- a real interleaving (chunk size 8, the 20-byte file): thread 0 makes a delimited read `4..20` (string at
+4, delimiter at 12) and a range read; thread 1 reads `[6,11)` and then the same delimited range. Schedule:
+T0 locks the string cache and misses; T1 runs its `buffer_manager` section (buffer 0 = `[0,16)`); T0's nested
+`get_range_location` finds its start cached in T1's buffer and reads buffer 1 = `[4,20)` (`start_is_cached`);
+T1 slices; T1 is blocked on the string-cache lock (its step is a no-op); T0 slices, finishes (inserting the
+string) and releases; T1 gets the lock and hits the cache; T0's range read is served from buffer 1. All four
+outcomes are the file's bytes. -/
+example :
+    let s := runSched C13_legacyCfg (Sys.init 20 [[.until_ ⟨4, 20⟩ 0, .read 18 2], [.read 6 5, .until_ ⟨4, 20⟩ 0]])
+      [0, 1, 0, 1, 1, 0, 0, 1, 1, 0, 0]
+    s.threads.map (·.done) =
+      [[(.read 18 2, .ok [19, 20]), (.until_ ⟨4, 20⟩ 0, .ok [5, 6, 7, 8, 9, 10, 11, 12])],
+       [(.until_ ⟨4, 20⟩ 0, .ok [5, 6, 7, 8, 9, 10, 11, 12]), (.read 6 5, .ok [7, 8, 9, 10, 11])]] ∧
+    s.lock = none ∧ s.st.buffers.length = 2 ∧ s.threads.all (·.finished) = true := by
+  decide
+
+/-- the shared.rs layer on real bytes (chunk size 8): `range(2, 5).make_subrange(3, 1).make_subrange(1, 100)`
+starts at 6 and reads past the sizes of all three views; the `ReadRef` impls reduce errors to `Err(())`;
+`read_entire_data` after partial reads returns the whole file. -/
+example :
+    let c := C13_legacyCfg
+    let s1 := (xstep c (St.init 20) (.view (.vread (some (2, 5)) [(3, 1), (1, 100)] 4 6))).1
+    (xstep c (St.init 20) (.view (.vread (some (2, 5)) [(3, 1), (1, 100)] 4 6))).2 = .ok [11, 12, 0, 14, 15, 16] ∧
+    (xstep c s1 (.view (.vread none [] 15 6))).2 = .err .discarded ∧
+    (xstep c s1 (.view (.vuntil (some (2, 5)) [(2, 0)] ⟨0, 16⟩ 0))).2 = .ok [5, 6, 7, 8, 9, 10, 11, 12] ∧
+    (xstep c s1 (.view (.wuntil ⟨4, 8⟩ 0))).2 = .err .discarded ∧
+    (xstep c s1 (.view .entire)).2 = .ok C13_legacyFile ∧
+    (xstep c s1 (.view (.vread (some (U64 - 1, 5)) [(1, 1)] 0 1))).2 = .panic ∧
+    (xstep c s1 (.view (.vread (some (U64 - 1, 5)) [] 1 1))).2 = .err .discarded := by
+  decide
+
+/-- `C13_total_after_success` on real bytes: a source that refuses every request touching byte 17; the read
+`[10, 14)` succeeds (buffer `[8, 16)`), afterwards `[12, 19)` fails (it needs `[12, 20)`), and the sub-range
+`[11, 13)` of the first read still succeeds. The plain source over a file is monotone. -/
+example :
+    let c : Cfg := ⟨8, fun o n => if o ≤ 17 ∧ 17 < o + n then none else srcOf C13_legacyFile o n⟩
+    let s1 := (readBytesAt c (St.init 20) 10 4).1
+    (readBytesAt c (St.init 20) 10 4).2 = .ok [11, 12, 0, 14] ∧
+    (readBytesAt c s1 12 7).2 = .err .source ∧ (readBytesAt c (readBytesAt c s1 12 7).1 11 2).2 = .ok [12, 0] := by
+  decide
+
+example (F : List UInt8) : SrcMono (srcOf F) := by
+  intro o n o' n' h h1 h2
+  simp only [srcOf] at h ⊢
+  split at h
+  · have : o' + n' ≤ F.length := by omega
+    simp [this]
+  · simp at h
